@@ -172,9 +172,9 @@ func cmdRun(args []string) int {
 		results = append(results, &FuncResult{Contract: c, VC: eng.newVC(nil, c.FullKey()), Err: "the contract no longer type-checks against the code (signature or names changed): its obligations cannot be established"})
 	}
 	tGen := time.Since(t0) - tLoad
-	cfg := solveCfg{tier: o.tier, workdir: work, quickT: 4, fullT: 30, jobs: o.jobs}
+	cfg := solveCfg{tier: o.tier, workdir: work, quickT: 4, fullT: 60, jobs: o.jobs}
 	if o.tier == "thorough" {
-		cfg.fullT = 120
+		cfg.fullT = 180
 		cfg.quickT = 10
 	}
 	solveObligations(all, cfg)
